@@ -16,6 +16,9 @@ import Uft.Model.Crash
    K <t>                                                     kill
    R read | R flush <t> <i> | R flushall | R stop | R remaining | R shutdown
    W <w> pick | write | splice
+   WP init <nw> | start <t> <i> | end <t> <i> | pick <w> | write <w> | splice <w> | stop | flushall | remaining
+                                                             the recorder session around the writer pool alone
+                                                             (Writers.Sess; counterpart of harness/c03_writer.c)
    SEGV <fixed:0|1> <maxstack> <idx> <written…>               segv_handler's flush (Crash.segvFlush): idx calls are
                                                              open, function k at depth k, innermost first flags
    H <line of the hook-model driver>                          (C04) CFG / TRIG / FSIZE / T / E pg|cyg <fn> / X … are passed to
@@ -37,6 +40,7 @@ structure St where
   s : State := State.init 1
   tids : List Tid := []
   mc : Driver.Mcount.DS := {}      -- (C04) the hook model under record-time filters
+  se : Sess := {}                  -- the recorder session around the writer pool (harness/c03_writer.c)
 
 def showItem : Item → String
   | .whole r => toString r.id
@@ -69,6 +73,15 @@ def showState (st : St) : String :=
   s!" | PIPE=[{",".intercalate (s.pipe.map showMsg)}] SHM=[{showWBs s.shmemList}] WL=[{showWBs s.pool.writeList}] " ++
   s!"WR=[{";".intercalate (s.pool.writers.map showWarg)}] LOST={s.lostCount} " ++
   " ".intercalate (st.tids.map fun t => s!"F{t}=[{",".intercalate ((s.file t).map showItem)}]")
+
+def showSess (e : Sess) : String :=
+  s!"SHM=[{showWBs e.shm}] WL=[{showWBs e.pool.writeList}] WR=[{";".intercalate (e.pool.writers.map showWarg)}] " ++
+  s!"K={if e.stopped then 0 else e.pool.kicks} LOG=[{showWBs e.log}]"
+
+def sessAct (st : St) (r : Option Sess) : St × String :=
+  match r with
+  | some e => ({ st with se := e }, "ok " ++ showSess e)
+  | none => (st, "disabled " ++ showSess st.se)
 
 def insertTid (t : Tid) : List Tid → List Tid
   | [] => [t]
@@ -219,6 +232,16 @@ def handle (st : St) : List String → St × String
   | ["W", w, "pick"] => act st (.wPick w.toNat!)
   | ["W", w, "write"] => act st (.wWrite w.toNat!)
   | ["W", w, "splice"] => act st (.wSplice w.toNat!)
+  | ["WP", "init", nw] =>
+    sessAct st (some (Sess.init nw.toNat!))
+  | ["WP", "start", t, i] => sessAct st (st.se.step (.start ⟨t.toNat!, i.toNat!⟩))
+  | ["WP", "end", t, i] => sessAct st (st.se.step (.fin ⟨t.toNat!, i.toNat!⟩))
+  | ["WP", "pick", w] => sessAct st (st.se.step (.pick w.toNat!))
+  | ["WP", "write", w] => sessAct st (st.se.step (.write w.toNat!))
+  | ["WP", "splice", w] => sessAct st (st.se.step (.splice w.toNat!))
+  | ["WP", "stop"] => sessAct st (st.se.step .stop)
+  | ["WP", "flushall"] => sessAct st (st.se.step .flushAll)
+  | ["WP", "remaining"] => sessAct st (st.se.step .remaining)
   | "SEGV" :: fx :: maxst :: idx :: written =>
     let mx := maxst.toNat!
     let idx := idx.toNat!
